@@ -200,13 +200,18 @@ class InternalCompiler(Compiler):
             if len(erets) == 2:
                 qc.mcx(erets, dest)
         else:
-            # 4. More than two args: De Morgan, a | b | c = ~(~a & ~b & ~c)
-            for i in erets:
-                qc.x(i)
-            qc.mcx(erets, dest)
-            for i in erets:
-                qc.x(i)
-            qc.x(dest)
+            # 4. More than two args: fold the binary or, a | b | c = (a | b) | c; every
+            # gate targets dest or a new ancilla, so that uncompute can replay it
+            acc = erets[0]
+            for i in erets[1:]:
+                d = dest
+                if i != erets[-1]:
+                    d = qc.get_free_ancilla()
+                    qc.mark_ancilla(d)
+                qc.cx(acc, d)
+                qc.cx(i, d)
+                qc.mcx([acc, i], d)
+                acc = d
 
         # 5. Mark ancilla every argument and return
         [qc.mark_ancilla(eret) for eret in erets]
